@@ -189,7 +189,7 @@ fn build_any(rng: &mut Rng, r: &Rose) -> (Tree, String) {
         3 => (build_bottom_up(r, &mut Rng::new(seed)), format!("real.build\tbottomup\t{}\t{seed}", r.canon())),
         0 => (build_api(r), format!("real.build\tapi\t{}\t0", r.canon())),
         1 => (build_api_bfs(r), format!("real.build\tbfs\t{}\t0", r.canon())),
-        _ => (build_with_tombstones(r, &mut Rng::new(seed)), format!("real.build\ttomb\t{}\t{seed}", r.canon())),
+        _ => if rng.chance(1, 2) { (build_with_tombstones(r, &mut Rng::new(seed)), format!("real.build\ttomb\t{}\t{seed}", r.canon())) } else { (build_with_tombstones2(r, &mut Rng::new(seed)), format!("real.build\ttomb2\t{}\t{seed}", r.canon())) },
     }
 }
 
